@@ -43,7 +43,7 @@ def build_sort(sc):
         col = ("obj", 1)
     else:
         objs, cons = _decoy(n)[:, None].copy(), np.stack([_decoy(n), val], axis=1)
-        cfg["nonlinear_constraints"] = {"lower_bounds": [-INF, -INF], "upper_bounds": [0.0, 0.0],
+        cfg["nonlinear_constraints"] = {"lower_bounds": [-5.0, -INF], "upper_bounds": [0.0, 0.0],
                                         "realization_filters": [-1, 0]}
         cfg["realization_filters"] = [{"method": "sort-constraint", "options": {"sort": 1, **opts}}]
         col = ("con", 1)
@@ -62,6 +62,16 @@ def _inject(objs, cons, failed, spread):
         else:
             o[i, -1] = np.nan
     return o, c
+
+
+class _Pert:
+    """Wraps a table evaluator so that it also serves perturbed rows (same per-realization values)."""
+
+    def __init__(self, inner):
+        self.inner = inner
+
+    def __call__(self, variables, context):
+        return self.inner(variables, context)
 
 
 def drive_sort(sc):
@@ -101,6 +111,22 @@ def drive_sort(sc):
             value = (r.functions.objectives if col[0] == "obj" else r.functions.constraints)[col[1]]
     trace.append({**base, "ev": "Sort", "via": "e2e", "outcome": outcome,
                   "w": nums(w) if w is not None else [], "value": num(value)})
+    # the same through a combined function + gradient evaluation (what speculative optimizers request)
+    if outcome != "rejected":
+        ev2 = TableEvaluator(o, c)
+        res, outcome2 = outcome_of(lambda: ensemble_evaluator(config, _Pert(ev2)).calculate(
+            np.zeros(2), compute_functions=True, compute_gradients=True))
+        w = value = None
+        if res is not None:
+            r = res[0]
+            rows = r.realizations.objective_weights if col[0] == "obj" else r.realizations.constraint_weights
+            w = None if rows is None else rows[col[1]]
+            if r.functions is None:
+                outcome2 = "nofunctions"
+            else:
+                value = (r.functions.objectives if col[0] == "obj" else r.functions.constraints)[col[1]]
+        trace.append({**base, "ev": "Sort", "via": "e2e", "outcome": outcome2,
+                      "w": nums(w) if w is not None else [], "value": num(value)})
     n, nsucc = sc["n"], int((~failed).sum())
     valid = sc["first"] <= sc["last"] < n
     feats = {"nontrivial": bool(valid and (sc["last"] - sc["first"] + 1 < nsucc or (failed.any() and sc["last"] >= nsucc))),
